@@ -82,7 +82,28 @@ pub fn ord_lines(rng: &mut Rng, idx: u64, maxvars: usize) -> Vec<String> {
                 let mut ext = VarOrder::new(&perm.iter().map(|&x| VarLabel::new_usize(x)).collect::<Vec<_>>());
                 let a = ext.new_last();
                 let b = ext.new_last();
-                format!("order={} lt={} ext={},{},{}", order_str(&o), lt, a.value(), b.value(), order_str(&ext))
+                // the accessor API: lte, above / below, last_var, the iterators, Display
+                let lte: String = (0..n)
+                    .flat_map(|a| (0..n).map(move |b| (a, b)))
+                    .map(|(a, b)| if o.lte(VarLabel::new_usize(a), VarLabel::new_usize(b)) { '1' } else { '0' })
+                    .collect();
+                let nb = |x: Option<VarLabel>| x.map(|v| v.value().to_string()).unwrap_or_else(|| "-".to_string());
+                let above: Vec<String> = (0..n).map(|v| nb(o.above(VarLabel::new_usize(v)))).collect();
+                let below: Vec<String> = (0..n).map(|v| nb(o.below(VarLabel::new_usize(v)))).collect();
+                let fwd: Vec<String> = o.in_order_iter().map(|v| v.value().to_string()).collect();
+                let rev: Vec<String> = o.reverse_in_order_iter().map(|v| v.value().to_string()).collect();
+                let (lo, hi) = {
+                    let a = (perm[0] * 7 + n) % (n + 1);
+                    let b = (perm[n - 1] * 5 + 1) % (n + 1);
+                    (std::cmp::min(a, b), std::cmp::max(a, b))
+                };
+                let btw: Vec<String> = o.between_iter(lo, hi).map(|v| v.value().to_string()).collect();
+                format!(
+                    "order={} lt={} ext={},{},{} lte={} above={} below={} last={} fwd={} rev={} btw={}:{}:{} disp={}",
+                    order_str(&o), lt, a.value(), b.value(), order_str(&ext),
+                    lte, above.join("."), below.join("."), o.last_var().value(), fwd.join("."), rev.join("."),
+                    lo, hi, btw.join("."), format!("{}", o).replace(' ', "")
+                )
             });
             out.push(format!("{} => {}", head, r.unwrap_or_else(|e| e)));
         }
